@@ -254,6 +254,7 @@ def run(ctx):
             ctx.sample({"entry": ent.decode(), "call": call, "nth": nth, "errno": ERRNOS[eno], "gone": sorted(p.decode() for p in gone)[:4]}, cap=8)
 
     directed_fault_scenarios(ctx, shim)
+    vanished_root_scenarios(ctx)
 
     # model-level hook (engine G): failing every read of one inode in the extracted model, which Props_C15.v is about, gives
     # the partition of the model and of the implementation on the tree without that inode
@@ -323,6 +324,61 @@ def directed_fault_scenarios(ctx, shim):
         for g in groups:
             if len({open(p, "rb").read() for p in g["files"]}) > 1:
                 ctx.violation({"kind": "others_grouped_differently", "scenario": "directed"}, "a group mixes different contents", payload, found_input=True)
+        shutil.rmtree(base, ignore_errors=True)
+
+
+def vanished_root_scenarios(ctx):
+    """input paths read from --stdin of which some have VANISHED (never existed / dangling link) - first, in the middle, last, several:
+    each is left out (with a warning), every other input path is scanned as if the missing one had not been listed."""
+    import shutil
+    for i in range(ctx.pick(6, 40)):
+        rng = ctx.rng.fork()
+        base = os.path.realpath(os.path.join(ctx.scratch, "vroot%d" % i))
+        shutil.rmtree(base, ignore_errors=True)
+        size = rng.choice([10, 5000])
+        good = treegen.content(rng.next(), size)
+        nroots = 2 + rng.below(3)
+        files = []
+        for r in range(nroots):
+            for k in range(1 + rng.below(3)):
+                p = os.path.join(base, "r%d" % r, "sub" if k else "", "f%d" % k)
+                os.makedirs(os.path.dirname(p), exist_ok=True)
+                with open(p, "wb") as f:
+                    f.write(good if rng.chance(2, 3) else treegen.content(rng.next(), size))
+                files.append(p)
+        os.symlink(os.path.join(base, "nowhere"), os.path.join(base, "dangling"))
+        roots = [os.path.join(base, "r%d" % r) for r in range(nroots)]
+        gone = [os.path.join(base, n) for n in ("gone-a", "dangling", "gone-b/deeper")]
+        k = i % 4
+        if k == 0:
+            order = [gone[0]] + roots
+        elif k == 1:
+            order = roots[:1] + [rng.choice(gone)] + roots[1:]
+        elif k == 2:
+            order = roots[:1] + gone[:2] + roots[1:-1] + [gone[2]] + roots[-1:]
+        else:
+            order = roots + [gone[1]]
+        opts = ["--rf-over", "0"] + rng.choice([[], ["--threads", "1"], ["--threads", "main:1"]]) + rng.choice([[], ["-L"], ["-S"]])
+        rc, out, err = treegen.fclones(["group", "--stdin", "-f", "json"] + opts, env={"FCLONES_VERIF_DISK_KIND": "ssd"}, cwd=base,
+                                       stdin=("\n".join(order) + "\n").encode(), timeout=60)
+        ctx.count()
+        ctx.distinct(("vroot", i, tuple(order), tuple(opts)), True)
+        ctx.bump("directed_faults", "vanished_input_path(%s)" % ["first", "middle", "several", "last"][k])
+        payload = {"scenario": "input paths on --stdin, some of them missing", "stdin_paths": order, "opts": opts,
+                   "stderr": err.decode("utf-8", "replace")[-600:],
+                   "replay": "cd %s && printf '%%s\\n' %s | fclones group --stdin %s" % (base, " ".join(order), " ".join(opts))}
+        if rc != 0:
+            ctx.violation({"kind": "hang_under_faults" if rc == -9 else "run_failed_under_fault", "scenario": "vanished_root"},
+                          "fclones group --stdin %s with a missing input path" % ("did not finish" if rc == -9 else "exited %d" % rc), payload, found_input=True)
+            continue
+        _, groups = treegen.parse_json_report(out.decode("utf-8"))
+        listed = {p.decode() for g in groups for p in g["files"]}
+        missing = sorted(set(files) - listed)
+        if missing:
+            payload["missing"] = missing[:6]
+            ctx.violation({"kind": "other_files_dropped", "scenario": "vanished_root"},
+                          "%d readable files under existing input paths are missing from the report because ANOTHER input path does not exist "
+                          "(--rf-over 0 lists every readable file)" % len(missing), payload, found_input=True)
         shutil.rmtree(base, ignore_errors=True)
 
 
